@@ -308,6 +308,11 @@ class Implements(NameAndModuleComparisonMixin,
     # class whose specification should be used as additional base
     inherit = None
 
+    # class this specification was computed for. Unlike ``inherit`` it
+    # is not reset by the *only* forms, so it still names the class when
+    # the specification is pickled.
+    _implemented_cls = None
+
     # interfaces actually declared for a class
     declared = ()
 
@@ -352,7 +357,10 @@ class Implements(NameAndModuleComparisonMixin,
         return f'classImplements({name}{declared_names})'
 
     def __reduce__(self):
-        return implementedBy, (self.inherit, )
+        cls = self.inherit
+        if cls is None:
+            cls = self._implemented_cls
+        return implementedBy, (cls, )
 
 
 def _implements_name(ob):
@@ -492,6 +500,8 @@ def implementedBy(
 
         spec = Implements.named(spec_name, *[implementedBy(c) for c in bases])
         spec.inherit = cls
+
+    spec._implemented_cls = cls
 
     try:
         cls.__implemented__ = spec
